@@ -15,6 +15,7 @@ package main
 
 import (
 	"context"
+	"encoding/base64"
 	"fmt"
 	"strings"
 
@@ -33,6 +34,9 @@ const (
 	sigInception  = 1767225600 // 2026-01-01
 	sigExpiration = 2082758400 // 2036-01-01
 )
+
+// 64 octets, like an ECDSA P-256 signature
+var fakeSignature = base64.StdEncoding.EncodeToString([]byte("c05-fake-signature-c05-fake-signature-c05-fake-signature-c05-fak"))
 
 func mustRR(s string) dns.RR {
 	rr, err := dns.NewRR(s)
@@ -60,7 +64,7 @@ func fakeSig(rr dns.RR, zone string) dns.RR {
 		Inception:   sigInception,
 		KeyTag:      4242,
 		SignerName:  zone,
-		Signature:   "q1w2e3r4t5y6u7i8o9p0a1s2d3f4g5h6j7k8l9z0x1c2v3b4n5m6q7w8e9r0t1y2u3i4o5p6a7s8d3f4g5h6j7k8==",
+		Signature:   fakeSignature,
 	}
 	if strings.HasPrefix(h.Name, "*.") {
 		sig.Labels--
@@ -331,7 +335,7 @@ func universe(_ context.Context, req *stack.StubRequest) *stack.StubReply {
 				m.Answer = append(m.Answer, fakeSig(stack.MarkerRR(7, lname, t, posTTL), zone))
 			}
 		default:
-			n := nsecRR(lname, "sig-"+id+"!."+zone, dns.TypeA, dns.TypeAAAA, dns.TypeTXT, dns.TypeRRSIG, dns.TypeNSEC)
+			n := nsecRR(lname, "sig-"+id+"!."+zone, dns.TypeA, dns.TypeTXT, dns.TypeAAAA, dns.TypeRRSIG, dns.TypeNSEC)
 			signedNegative(m, zone, dns.RcodeSuccess, n)
 		}
 
